@@ -27,7 +27,6 @@ class AsyncFakeSocket(_fakesocket.FakeSocket):
                         ret = func(False)
                         if ret is not None:
                             result = self._decode_result(ret)
-                            self.put_response(result)
                             break
         except asyncio.TimeoutError:
             result = None
